@@ -78,7 +78,37 @@ def check(ctx):
         check_config(ctx, ctx.facts(cfg), cfg)
 
 
+def positive_identifications(ctx, F, tag):
+    """Two shapes that break the property outright, recognised before the complete argument is attempted (which would only lose its
+    anchors on them): the number in the name drawn from thread-local state, and the caller's name part rewritten after insertion."""
+    if not F.has_body(FUNC):
+        return False
+    b = F.body(FUNC)
+    where = loc(b.raw["span"])
+    found = False
+    tls = [(bi, t) for bi, t in b.calls() if callee_name(t).startswith("std::thread::LocalKey::<") and callee_name(t).split("::")[-1] in ("with", "try_with", "get", "set", "replace", "take")]
+    rmw = [(bi, t) for bi, t in b.calls() if callee_name(t).split("::")[-1].startswith("fetch_") and "atomic" in callee_name(t)]
+    tid = [(bi, t) for bi, t in b.calls() if callee_name(t) in ("std::thread::current", "std::thread::Thread::id")]
+    if tls and not rmw and not tid:
+        ctx.ob("C20.R1.counter-is-process-wide", FUNC + tag, loc(tls[0][1]["sp"]), False, "value-provenance",
+               "the number in the name is drawn from thread-local state (%s) and no process-wide atomic read-modify-write or ThreadId enters the name: "
+               "two threads -- or a thread that inherits an exited thread's storage -- can draw the same number" % callee_name(tls[0][1]).split("<")[0])
+        found = True
+    for bi, t in b.calls():
+        cn = callee_name(t)
+        if cn.split("::")[-1] in ("replace", "replacen", "replace_range") and (cn.startswith("std::str::") or cn.startswith("alloc::str::") or "str>::" in cn or "String" in cn or "str::<impl str>" in cn):
+            recv = b.term_of_operand(t["args"][0])
+            if any(x[0] == "param" and x[1] == 0 for x in subterms(recv) if isinstance(x, tuple) and x):
+                ctx.ob("C20.R2.name-part-verbatim", "%s#%d%s" % (FUNC, bi, tag), loc(t["sp"]), False, "value-provenance",
+                       "text that already contains the caller's name part is passed through %s: a name part containing the pattern is rewritten, so the returned path "
+                       "no longer contains it" % cn.split("::")[-1])
+                found = True
+    return found
+
+
 def check_config(ctx, F, cfg):
+    if positive_identifications(ctx, F, "" if cfg == "native" else "@" + cfg):
+        return
     st = F.statics.get(COUNTER)
     if st is None:
         raise Undecided("anchor lost: static %s" % COUNTER)
